@@ -334,7 +334,7 @@ def single_edit_grid(programs, tier, shard, nshards, seed, n_expr=6, thin=1, rem
             if line_comments and isinstance(node, _ast.stmt):
                 for lcf in (None, 'body', 'orelse', 'finalbody'):
                     if lcf is None or getattr(node, lcf, None):
-                        for text in ('lc', ''):
+                        for text in ('lc', 'a considerably longer line comment than before', ''):
                             k += 1
 
                             if k % nshards == shard and not (thin > 1 and (k * 2654435761 + seed * 40503) % thin):
@@ -534,9 +534,76 @@ def path_of(root_ast: AST, node: AST):
     return None
 
 
+def warm_caches(root: FST) -> None:
+    """Read-only queries on every node (locations, bounding locations, parentheses, own source): fills the per-node caches so that an edit which
+    forgets to flush one shows up in the NEXT edit or query."""
+
+    for f in root.walk(True):
+        try:
+            f.loc
+            f.bloc
+            f.pars()
+        except Exception:
+            pass
+
+
+def ancestor_two_step_grid(programs, tier, shard, nshards, seed, thin=1):
+    """Two-step histories: (1) put a longer / shorter / no line comment on a statement, or replace / remove its last expression, then (2) remove, cut or
+    replace by itself every enclosing statement - with all caches warm before each step. Yields em cases with two steps."""
+
+    import ast as _ast
+
+    k = 0
+
+    for src in programs:
+        try:
+            tree = _ast.parse(src)
+        except SyntaxError:
+            continue
+
+        targets = node_targets(tree)
+        index = {id(n): i for i, (n, p, f, i_) in enumerate(targets)}
+        parents = {}
+
+        for n in _ast.walk(tree):
+            for c in _ast.iter_child_nodes(n):
+                parents[id(c)] = n
+
+        for ti, (node, parent, field, idx) in enumerate(targets):
+            if not isinstance(node, _ast.stmt):
+                continue
+
+            anc = []
+            p = parents.get(id(node))
+
+            while p is not None and not isinstance(p, _ast.Module):
+                if isinstance(p, _ast.stmt) and id(p) in index:
+                    anc.append(index[id(p)])
+
+                p = parents.get(id(p))
+
+            firsts = [{'op': 'put_line_comment', 'text': t, 'lc_field': None} for t in ('a considerably longer line comment than before', 'c', '')]
+            firsts += [{'op': 'put_line_comment', 'text': 'header comment which is long', 'lc_field': lf} for lf in ('body', 'orelse', 'finalbody') if getattr(node, lf, None)]
+
+            for first in firsts:
+                for ai in anc + [ti]:
+                    for op2 in ('remove', 'cut', 'cut_paste_self'):
+                        k += 1
+
+                        if k % nshards != shard or (thin > 1 and (k * 2654435761 + seed * 40503) % thin):
+                            continue
+
+                        base = {'form': 'src', 'dsel': 0, 'opts': {}, 'anycat': False, 'layout': [], 'warm': True}
+
+                        yield {'src': src, 'grid': True, 'steps': [{**base, 'tsel': ti, **first}, {**base, 'tsel': ai, 'op': op2}]}
+
+
 def apply_step(root: FST, step: dict, base_opts: dict) -> Applied:
     """Resolve and perform one step on `root`. Raises StepSkipped when the step is not applicable to the current tree
     (counted). pfst exceptions are caught and recorded in the returned `Applied` (raised=True, exc=...)."""
+
+    if step.get('warm'):
+        warm_caches(root)
 
     ap = Applied()
     op = ap.op = step['op']
@@ -552,7 +619,7 @@ def apply_step(root: FST, step: dict, base_opts: dict) -> Applied:
     ap.form = step['form']
     root_ast = root.a
 
-    if op in NODE_OPS or op in PAR_OPS:
+    if op in NODE_OPS or op in PAR_OPS or op == 'cut_paste_self':
         targets = node_targets(root_ast)
 
         if not targets:
@@ -674,6 +741,13 @@ def apply_step(root: FST, step: dict, base_opts: dict) -> Applied:
 
                 piece = f.copy(**opts)
                 node2.f.replace(piece, **opts)
+            elif op == 'cut_paste_self':  # take the node out and put the piece back where it was
+                if idx is None:
+                    piece = f.copy(**opts)
+                    f.replace(piece, **opts)
+                else:
+                    piece = f.cut(**opts)
+                    parent.f.put_slice(piece, idx, idx, field, one=True, **opts) if isinstance(node, ast.stmt) else parent.f.insert(piece, idx, field, one=True, **opts)
             elif op == 'put_prim':
                 spec = PRIM_FIELDS.get(node.__class__.__name__)
 
